@@ -316,6 +316,31 @@ func runC10(c *an.Ctx) {
 	}
 	c.MinCount("R3", "request/response side directives", nDir, 6)
 
+	// the per-transaction body settings can be changed by ctl until the body phase of their side starts, and the
+	// access switch and the limit of one side agree on that point (request side: last phase <= 1, response side: <= 3)
+	{
+		gate := map[string]int64{}
+		for _, fld := range []string{"RequestBodyAccess", "RequestBodyLimit", "ResponseBodyAccess", "ResponseBodyLimit"} {
+			for _, fs := range c.P.StoresToField(pkgWAF, "Transaction", fld) {
+				if an.RelName(fs.Fn) != "internal/actions.(*ctlFn).Evaluate" {
+					continue
+				}
+				_, hi, _ := an.FactsAt(fs.Store).Range(".lastPhase")
+				gate[fld] = hi
+			}
+		}
+		want := map[string]int64{"RequestBodyAccess": 1, "RequestBodyLimit": 1, "ResponseBodyAccess": 3, "ResponseBodyLimit": 3}
+		for fld, w := range want {
+			got, ok := gate[fld]
+			if !ok {
+				c.Unknown("R3", "ctl gate of "+fld, token.NoPos, "no store of Transaction."+fld+" found in ctl.Evaluate")
+				continue
+			}
+			c.Check(got == w, "R3", "ctl may change "+fld+" until phase "+fmt.Sprint(w)+" has been reached", token.NoPos, fmt.Sprintf("store under lastPhase <= %d", got),
+				fmt.Sprintf("ctl changes %s only while lastPhase <= %d (expected <= %d, like the sibling setting of the same side): a ctl issued from a rule of phase %d — the first phase that can see what it needs — is silently ignored, so the configured limit/access applies instead of the one the rule set", fld, got, w, w))
+		}
+	}
+
 	// ---- R4 readers advance by what they return.
 	if rd := c.Fn("R4", "internal/corazawaf.(*bodyBufferReader).Read"); rd != nil {
 		n := 0
